@@ -14,6 +14,7 @@ import (
 	"time"
 
 	"github.com/tendermint/tendermint/internal/verif/vr"
+	tmcons "github.com/tendermint/tendermint/proto/tendermint/consensus"
 	tmproto "github.com/tendermint/tendermint/proto/tendermint/types"
 	"github.com/tendermint/tendermint/types"
 )
@@ -32,9 +33,82 @@ type c01Config struct {
 }
 
 type dsRepEv struct {
-	K   uint8  `json:"k"`
-	N   uint8  `json:"n"`
-	Key string `json:"msg,omitempty"`
+	K   uint8    `json:"k"`
+	N   uint8    `json:"n"`
+	Key string   `json:"msg,omitempty"`
+	Raw []string `json:"raw,omitempty"` // the message itself (hex of the wire encoding of each part): a replay can re-create it even when the
+	// representative history it belongs to was recorded in another branch of the exploration
+	From int `json:"from,omitempty"`
+}
+
+// dsRepOf builds the replay form of an event.
+func dsRepOf(w *dsWorld, ev dsEv) dsRepEv {
+	re := dsRepEv{K: ev.K, N: ev.N}
+	if ev.K == dsDeliver || ev.K == dsDelay || ev.K == dsRelease {
+		m := w.msg(int(ev.M))
+		re.Key, re.From = m.Key, m.From
+		if ev.K == dsDeliver && m.Kind != "votes" {
+			for _, mi := range m.mis {
+				pm, err := MsgToProto(mi.Msg)
+				if err != nil {
+					continue
+				}
+				if bz, err := pm.Marshal(); err == nil {
+					re.Raw = append(re.Raw, fmt.Sprintf("%x", bz))
+				}
+			}
+		}
+	}
+	return re
+}
+
+// dsResolve finds (or re-creates) the message a replay event names.
+func dsResolve(w *dsWorld, re dsRepEv) (int, bool) {
+	w.mtx.Lock()
+	id, ok := w.msgByKey[re.Key]
+	w.mtx.Unlock()
+	if ok {
+		return id, true
+	}
+	if len(re.Raw) > 0 {
+		var prop *types.Proposal
+		var parts []*types.Part
+		var vote *types.Vote
+		for _, hx := range re.Raw {
+			var bz []byte
+			if _, err := fmt.Sscanf(hx, "%x", &bz); err != nil {
+				return 0, false
+			}
+			pm := new(tmcons.Message)
+			if err := pm.Unmarshal(bz); err != nil {
+				return 0, false
+			}
+			msg, err := MsgFromProto(pm)
+			if err != nil {
+				return 0, false
+			}
+			switch x := msg.(type) {
+			case *VoteMessage:
+				vote = x.Vote
+			case *ProposalMessage:
+				prop = x.Proposal
+			case *BlockPartMessage:
+				parts = append(parts, x.Part)
+			}
+		}
+		if vote != nil {
+			return w.internVote(vote, true), true
+		}
+		if prop != nil {
+			return w.internProposal(re.From, prop, parts, true), true
+		}
+	}
+	if w.ensureVoteByKey(re.Key) {
+		w.mtx.Lock()
+		id, ok = w.msgByKey[re.Key]
+		w.mtx.Unlock()
+	}
+	return id, ok
 }
 
 type c01Case struct {
@@ -216,11 +290,7 @@ func c01Build(r *vr.Report, c c01Config) *c01Setup {
 func (s *c01Setup) toCase(c c01Config, tr []dsEv) c01Case {
 	out := c01Case{Cfg: c, Desc: s.e.describe(tr)}
 	for _, ev := range tr {
-		re := dsRepEv{K: ev.K, N: ev.N}
-		if ev.K == dsDeliver || ev.K == dsDelay || ev.K == dsRelease {
-			re.Key = s.w.msg(int(ev.M)).Key
-		}
-		out.Trace = append(out.Trace, re)
+		out.Trace = append(out.Trace, dsRepOf(s.w, ev))
 	}
 	return out
 }
@@ -237,14 +307,7 @@ func dsReplayTrace(e *dsExplorer, trace []dsRepEv, each func(n *dsNode, ev dsEv,
 		}
 		ev := dsEv{K: re.K, N: re.N}
 		if re.K == dsDeliver {
-			e.w.mtx.Lock()
-			id, ok := e.w.msgByKey[re.Key]
-			e.w.mtx.Unlock()
-			if !ok && e.w.ensureVoteByKey(re.Key) {
-				e.w.mtx.Lock()
-				id, ok = e.w.msgByKey[re.Key]
-				e.w.mtx.Unlock()
-			}
+			id, ok := dsResolve(e.w, re)
 			if !ok {
 				panic("dsim replay: message not yet created at this point of the trace: " + re.Key)
 			}
